@@ -11,6 +11,7 @@
 #include <stdlib.h>
 #include <stdint.h>
 #include <string.h>
+#include <pthread.h>
 #include "bpm.h"
 
 static int ref(const uint8_t *t, const uint8_t *p, int n, int m)
@@ -34,7 +35,8 @@ static int ref(const uint8_t *t, const uint8_t *p, int n, int m)
         return best;
 }
 
-static uint64_t st = 88172645463325252ULL;
+static __thread uint64_t st = 88172645463325252ULL;
+static pthread_mutex_t cmu = PTHREAD_MUTEX_INITIALIZER;
 static uint32_t rnd(void) { st ^= st << 13; st ^= st >> 7; st ^= st << 17; return (uint32_t)(st >> 11); }
 
 static long n_block, n_64, n_256, bad_block, bad_64, bad_256;
@@ -59,6 +61,12 @@ static void check(const uint8_t *t, const uint8_t *p, int n, int m)
         int mm = m > 1024 ? 1024 : m;
         int e = ref(t, p, n, mm);
         int g = bpm_block(t, p, n, m);
+        int g2 = -1, g3 = -1;
+        if (m <= 63) g2 = bpm(t, p, n, m);
+#ifdef HAVE_AVX2
+        if (m <= 255) g3 = bpm_256(t, p, n, m);
+#endif
+        pthread_mutex_lock(&cmu);
         n_block++;
         int nb = (mm + 63) / 64;
         per_blocks[nb < 19 ? nb : 19]++;
@@ -68,16 +76,15 @@ static void check(const uint8_t *t, const uint8_t *p, int n, int m)
         if (e != g) { bad_block++; print_case("bpm_block", t, p, n, m, e, g); }
         if (m <= 63) {
                 n_64++;
-                int g2 = bpm(t, p, n, m);
                 if (g2 != e) { bad_64++; print_case("bpm", t, p, n, m, e, g2); }
         }
 #ifdef HAVE_AVX2
         if (m <= 255) {
                 n_256++;
-                int g3 = bpm_256(t, p, n, m);
                 if (g3 != e) { bad_256++; print_case("bpm_256", t, p, n, m, e, g3); }
         }
 #endif
+        pthread_mutex_unlock(&cmu);
 }
 
 static void gen_case(long it)
@@ -128,6 +135,16 @@ static void gen_case(long it)
         free(t); free(p);
 }
 
+struct targ { long n; uint64_t seed; };
+static void *worker(void *a)
+{
+        struct targ *t = a;
+        st = 88172645463325252ULL ^ (t->seed * 0x9E3779B97F4A7C15ULL);
+        if (!st) st = 1;
+        for (long it = 0; it < t->n; it++) gen_case(it);
+        return NULL;
+}
+
 static void exhaustive(int sig, int nmax)
 {
         uint8_t t[32], p[32];
@@ -155,9 +172,19 @@ int main(int argc, char **argv)
         const char *mode = argv[1];
         if (!strcmp(mode, "rand")) {
                 long N = atol(argv[2]);
-                st ^= (uint64_t)atoll(argv[3]) * 0x9E3779B97F4A7C15ULL;
-                if (!st) st = 1;
-                for (long it = 0; it < N; it++) gen_case(it);
+                int nthr = argc > 4 ? atoi(argv[4]) : 1;
+                if (nthr <= 1) {
+                        st ^= (uint64_t)atoll(argv[3]) * 0x9E3779B97F4A7C15ULL;
+                        if (!st) st = 1;
+                        for (long it = 0; it < N; it++) gen_case(it);
+                } else {
+                        /* concurrent callers, as under the omp-for of the distance matrix */
+                        pthread_t th[64];
+                        struct targ ta[64];
+                        if (nthr > 64) nthr = 64;
+                        for (int k = 0; k < nthr; k++) { ta[k].n = N / nthr + 1; ta[k].seed = (uint64_t)atoll(argv[3]) * 64 + (uint64_t)k; pthread_create(&th[k], NULL, worker, &ta[k]); }
+                        for (int k = 0; k < nthr; k++) pthread_join(th[k], NULL);
+                }
         } else if (!strcmp(mode, "exh")) {
                 exhaustive(atoi(argv[2]), atoi(argv[3]));
         } else if (!strcmp(mode, "case")) {
